@@ -386,6 +386,34 @@ SIGSAFE = {"write", "read", "_exit", "signal", "sigaction", "raise", "kill", "io
            "__errno_location", "mytime_now", "clock_gettime"}
 
 
+def check_sigset(ck, prog):
+    """`if a termination signal arrives xz removes the incomplete target`: that is the job of the handler installed by
+    signals_init() for every signal in its sigs[] table.  A termination signal that is missing there kills the process
+    with the default action and the partial target stays behind.  Required: the signals whose default action terminates
+    the process and that xz can realistically receive while a target is open."""
+    NEED = {1: "SIGHUP", 2: "SIGINT", 13: "SIGPIPE", 15: "SIGTERM", 24: "SIGXCPU", 25: "SIGXFSZ"}
+    f = prog.fn("signals_init", "signals.c", target="xz")
+    ck.saw_function(f)
+    got = None
+    site = None
+    for b, i, e in f.iter_elems():
+        d = ex.deref(e)
+        if d.get("k") == "decl" and d.get("n") == "sigs" and d.get("init") is not None:
+            i0 = ex.strip(d["init"])
+            if i0 is not None and i0.get("k") == "init":
+                got = {ex.const_val(x) for x in i0["e"]}
+                site = e
+    if got is None:
+        raise AnalysisBroken("signals_init: the sigs[] table was not found")
+    missing = sorted(NEED[v] for v in NEED if v not in got)
+    ck.ob("C17-SIG", "handled-signals", not missing, common.where(f, site),
+          "signals_init installs the clean-up handler for %s" % ", ".join(NEED[v] for v in sorted(NEED)) if not missing else
+          "signals_init(): %s %s not in sigs[]: the signal terminates xz with the default action, the handler that makes xz "
+          "remove the incomplete target never runs and the partial file stays next to the source (SIGXFSZ: `ulimit -f` "
+          "smaller than the output)" % (", ".join(missing), "is" if len(missing) == 1 else "are"),
+          key="SIG:handled-signals")
+
+
 def check_sig(ck, prog):
     ck.rule("C17-SIG", "signal handlers are async-signal-safe and only set sig_atomic_t flags; "
             "signals_block/unblock paired; main ends with signals_exit")
@@ -812,6 +840,7 @@ def run(ck):
     check_fail(ck, prog)
     check_who(ck, prog)
     check_sig(ck, prog)
+    check_sigset(ck, prog)
     check_status(ck, prog)
     check_perfile(ck, prog)
     check_exit_sticky(ck, prog)
